@@ -211,6 +211,12 @@ where
                             }
                         }
 
+                        // The numeric parameter ends at the first `;`: anything
+                        // else directly after the code character belongs to a longer
+                        // parameter (OSC 10, 52, 133, ...), which is not 0, 1 or 2.
+                        if !param.is_empty() && !param.starts_with(';') {
+                            continue;
+                        }
                         param = param.chars().skip(1).collect();
 
                         if "01".contains(&code) {
@@ -340,6 +346,12 @@ where
                             }
                         }
 
+                        // The numeric parameter ends at the first `;`: anything
+                        // else directly after the code character belongs to a longer
+                        // parameter (OSC 10, 52, 133, ...), which is not 0, 1 or 2.
+                        if !param.is_empty() && !param.starts_with(';') {
+                            continue;
+                        }
                         param = param.chars().skip(1).collect();
 
                         if "01".contains(&code) {
